@@ -21,7 +21,7 @@ pub fn def() -> PropDef {
     PropDef {
         id: "C03",
         level: "exploration",
-        rule: "for each validly signed base entry: every single-byte alteration (each byte position of its wire encoding x {xor 0x01, xor 0x80, :=0x00, :=0xff}) that the crate still decodes, the two signatures swapped, signatures taken from another entry (other key / other author / other namespace), a validly signed entry of a foreign namespace, an entry claiming our namespace signed with a foreign namespace secret and entries naming a foreign / an unknown namespace signed with our namespace secret, author/namespace ids that are not curve points, timestamps now+10min-1/+0/+1 and the four emptiness combinations; each candidate is presented as a single remote insert to a replica that already holds the untampered original (signatures it has seen before), as a single remote insert and inside a hand-assembled reconciliation message at every position of every part (1..3 parts, 1..2 entries per part) among valid filler entries; the verdict is compared with an independent acceptance predicate; non-trivial = distinct candidates that the crate decodes and that differ from the base entry",
+        rule: "for each validly signed base entry: every single-byte alteration (each byte position of its wire encoding x {xor 0x01, xor 0x80, :=0x00, :=0xff}) that the crate still decodes, the two signatures swapped, signatures taken from another entry (other key / other author / other namespace), a validly signed entry of a foreign namespace, an entry claiming our namespace signed with a foreign namespace secret and entries naming a foreign / an unknown namespace signed with our namespace secret, author/namespace ids that are not curve points, timestamps now+10min-1/+0/+1 and the four emptiness combinations; each candidate is presented as a single remote insert to a replica that already holds the untampered original (signatures it has seen before), as a single remote insert and inside a hand-assembled reconciliation message at every position of every part (1..3 parts, 1..2 entries per part) among valid filler entries; the verdict is compared with an independent acceptance predicate; family G: a real node (Docs engine, gossip receive loop, store actor) syncs the document and an endpoint of the harness, joined to the document's gossip topic as its neighbour, broadcasts the candidates (byte alterations thinned to every 11th, thorough 5th, position) as Put operations, each followed by a validly signed probe: when the probe has entered, the replica holds the candidate exactly when the predicate allows it, reception has not stopped, and a subscriber of the docs API was told about exactly the entries that entered; non-trivial = distinct candidates that the crate decodes and that differ from the base entry",
         assumptions: &[
             "ed25519 itself (unforgeability, strictness) is trusted: the predicate asks the same library routine with an independently computed message and keys",
             "candidates are single-fault: one altered byte or one substituted field per entry",
@@ -636,8 +636,185 @@ fn classify(label: &str) -> String {
     }
 }
 
+// ---------------------------------------------------------------------------------------
+// Family G: the single remote insert as it happens in a deployed node — a hostile gossip
+// neighbour. A real node (Docs engine, gossip receive loop, store actor) syncs the document; a
+// second endpoint of the harness joins the document's gossip topic as its neighbour and
+// broadcasts, as `Put` operations, the candidates of the tamper alphabet (those that decode),
+// each followed by a validly signed probe entry. When the probe has entered the node's replica
+// the candidate before it has been dealt with: the replica must hold it exactly when the
+// acceptance predicate allows it (and it is not superseded), and a subscriber of the docs API
+// must have been told about exactly the entries that entered.
+// ---------------------------------------------------------------------------------------
+
+type Row = ([u8; 32], Vec<u8>, u64, [u8; 32], u64);
+
+fn row_of(e: &SignedEntry) -> Row {
+    (e.author().to_bytes(), e.key().to_vec(), e.timestamp(), *e.content_hash().as_bytes(), e.content_len())
+}
+
+fn put_op(entry_bytes: &[u8]) -> bytes::Bytes {
+    // postcard: enum variant 0 (`Op::Put`) followed by the signed entry
+    let mut v = vec![0u8];
+    v.extend_from_slice(entry_bytes);
+    v.into()
+}
+
+async fn gossip_cases(cands: &[(Spec, Candidate)]) -> anyhow::Result<Vec<(usize, &'static str, String)>> {
+    use iroh::endpoint::presets;
+    use n0_future::StreamExt;
+    let mut bad = vec![];
+    set_clock(NOW);
+    let node = super::live::live_node(0x61).await?;
+    let api = node.docs.api();
+    let doc = api.import_namespace(iroh_docs::Capability::Write(ns_secret(0))).await?;
+    doc.start_sync(vec![]).await?;
+    // what a subscriber of the docs API is told
+    let told: std::sync::Arc<std::sync::Mutex<Vec<Row>>> = Default::default();
+    let told2 = told.clone();
+    let mut events = doc.subscribe().await?;
+    let listener = tokio::spawn(async move {
+        while let Some(ev) = events.next().await {
+            if let Ok(iroh_docs::engine::LiveEvent::InsertRemote { entry, .. }) = ev {
+                told2.lock().unwrap().push((entry.author().to_bytes(), entry.key().to_vec(), entry.timestamp(), *entry.content_hash().as_bytes(), entry.content_len()));
+            }
+        }
+    });
+    // the hostile neighbour
+    let ep = iroh::Endpoint::builder(presets::Minimal).secret_key(iroh::SecretKey::from_bytes(&[0x62; 32])).bind().await.map_err(|e| anyhow::anyhow!("bind: {e}"))?;
+    let lookup = iroh::address_lookup::memory::MemoryLookup::new();
+    ep.address_lookup().map_err(|e| anyhow::anyhow!("lookup: {e}"))?.add(lookup.clone());
+    lookup.add_endpoint_info(node.router.endpoint().addr());
+    let gossip = iroh_gossip::net::Gossip::builder().spawn(ep.clone());
+    let router = iroh::protocol::Router::builder(ep.clone()).accept(iroh_gossip::ALPN, gossip.clone()).spawn();
+    let topic = gossip
+        .subscribe_with_opts(ns_id(0).into(), iroh_gossip::api::JoinOptions::with_bootstrap(vec![node.router.endpoint().id()]))
+        .await
+        .map_err(|e| anyhow::anyhow!("subscribe: {e}"))?;
+    let (sender, mut receiver) = topic.split();
+    tokio::time::timeout(std::time::Duration::from_secs(20), receiver.joined()).await.map_err(|_| anyhow::anyhow!("the hostile endpoint did not become a gossip neighbour within 20 s"))?.map_err(|e| anyhow::anyhow!("joined: {e}"))?;
+    let drain = tokio::spawn(async move { while receiver.next().await.is_some() {} });
+    let probe_author = iroh_docs::Author::from_bytes(&[0x77; 32]);
+    let mut model = crate::refmodel::ModelReplica::default();
+    let mut expected_told: Vec<Row> = vec![];
+    let dump = |doc: iroh_docs::api::Doc| async move {
+        let st = doc.get_many(iroh_docs::store::Query::all().include_empty()).await.map_err(|e| format!("{e:#}"))?;
+        tokio::pin!(st);
+        let mut out = vec![];
+        while let Some(item) = st.next().await {
+            let e = item.map_err(|e| format!("{e:#}"))?;
+            out.push((e.author().to_bytes(), e.key().to_vec(), e.timestamp(), *e.content_hash().as_bytes(), e.content_len()));
+        }
+        Ok::<Vec<Row>, String>(out)
+    };
+    for (i, (_base, c)) in cands.iter().enumerate() {
+        let Ok(cand) = postcard::from_bytes::<SignedEntry>(&c.bytes) else { continue };
+        let Some((raw, _)) = RawSigned::parse(&c.bytes) else { continue };
+        let ok = acceptable(&raw);
+        let enters = ok && matches!(model.put(&cand), crate::refmodel::PutOutcome::Inserted { .. });
+        if enters {
+            expected_told.push(row_of(&cand));
+        }
+        sender.broadcast(put_op(&c.bytes)).await.map_err(|e| anyhow::anyhow!("broadcast: {e}"))?;
+        let probe_key = format!("probe{i:05}");
+        let (h, l) = Val::X.hash_len();
+        let probe = SignedEntry::from_parts(&ns_secret(0), &probe_author, probe_key.as_bytes(), Record::new(h, l, T0 + 1));
+        sender.broadcast(put_op(&postcard::to_stdvec(&probe).unwrap())).await.map_err(|e| anyhow::anyhow!("broadcast: {e}"))?;
+        // wait for the probe
+        let start = std::time::Instant::now();
+        let mut arrived = false;
+        while start.elapsed() < std::time::Duration::from_secs(15) {
+            match doc.get_exact(probe_author.id(), probe_key.as_bytes(), false).await {
+                Ok(Some(_)) => {
+                    arrived = true;
+                    break;
+                }
+                Ok(None) => tokio::time::sleep(std::time::Duration::from_millis(2)).await,
+                Err(e) => {
+                    bad.push((i, "node_survives_forged_entry", format!("after the gossip neighbour sent candidate {}: the node's document no longer answers: {e:#}", c.label)));
+                    break;
+                }
+            }
+        }
+        if !arrived {
+            bad.push((i, "forged_entry_does_not_stop_reception", format!("after the gossip neighbour sent candidate {} (predicate: {}), a validly signed entry sent next never entered the replica (15 s)", c.label, if ok { "acceptable" } else { "not acceptable" })));
+            break;
+        }
+        // the replica (without the probes)
+        match dump(doc.clone()).await {
+            Ok(rows) => {
+                let got: Vec<Row> = rows.into_iter().filter(|r| r.0 != probe_author.id().to_bytes()).collect();
+                let want: Vec<Row> = model.dump().iter().map(row_of).collect();
+                if got != want {
+                    bad.push((i, "accepted_iff_predicate", format!("gossip neighbour sent candidate {} (predicate: {}): the replica holds {} entries {:?}, the reference {} {:?}", c.label, if ok { "acceptable" } else { "not acceptable" }, got.len(), got.iter().map(|r| (String::from_utf8_lossy(&r.1).to_string(), r.2 as i64 - T0 as i64)).collect::<Vec<_>>(), want.len(), want.iter().map(|r| (String::from_utf8_lossy(&r.1).to_string(), r.2 as i64 - T0 as i64)).collect::<Vec<_>>())));
+                    // resynchronise the reference so that one defect is reported once per candidate
+                    break;
+                }
+            }
+            Err(e) => bad.push((i, "node_survives_forged_entry", format!("dump: {e}"))),
+        }
+    }
+    // events: exactly the entries that entered, in order (probes left out)
+    tokio::time::sleep(std::time::Duration::from_millis(100)).await;
+    let told_rows: Vec<Row> = told.lock().unwrap().iter().filter(|r| r.0 != probe_author.id().to_bytes()).cloned().collect();
+    if bad.is_empty() && told_rows != expected_told {
+        let surplus: Vec<_> = told_rows.iter().filter(|r| !expected_told.contains(r)).map(|r| (hex::encode(&r.0[..2]), String::from_utf8_lossy(&r.1).to_string())).collect();
+        bad.push((usize::MAX, "rejected_entry_produces_no_event", format!("a subscriber of the docs API was told about {} remote entries, {} entered the replica; announced without having entered: {:?}", told_rows.len(), expected_told.len(), surplus)));
+    }
+    listener.abort();
+    drain.abort();
+    let _ = doc.leave().await;
+    let _ = tokio::time::timeout(std::time::Duration::from_secs(5), router.shutdown()).await;
+    let _ = tokio::time::timeout(std::time::Duration::from_secs(5), node.router.shutdown()).await;
+    Ok(bad)
+}
+
+fn gossip_share(ctx: &Ctx) -> Vec<(Spec, Candidate)> {
+    let mut out = vec![];
+    let mut ordinal = 1u64 << 43;
+    for base in bases(ctx.tier) {
+        for c in candidates(&base) {
+            // the byte alterations are thinned (every 5th position, quick: every 11th)
+            if let Some(rest) = c.label.strip_prefix("byte") {
+                let pos: usize = rest.split(':').next().and_then(|p| p.parse().ok()).unwrap_or(0);
+                if pos % (if ctx.quick() { 11 } else { 5 }) != 0 {
+                    continue;
+                }
+            }
+            ordinal += 1;
+            if ctx.mine(ordinal) {
+                out.push((base.clone(), c));
+            }
+        }
+    }
+    out
+}
+
+fn run_gossip_family(ctx: &Ctx, report: &mut Report) {
+    let share = gossip_share(ctx);
+    if share.is_empty() {
+        return;
+    }
+    let rt = super::live::runtime();
+    let res = rt.block_on(gossip_cases(&share));
+    drop(rt);
+    match res {
+        Err(e) => report.machinery_error(format!("gossip family: {e:#}")),
+        Ok(bad) => {
+            report.evaluations += share.len() as u64;
+            report.count("candidates_sent_by_a_gossip_neighbour", share.len() as u64);
+            for (i, o, d) in bad {
+                let labels: Vec<String> = share.iter().map(|(_, c)| c.label.clone()).collect();
+                let case = json!({"gossip": {"shard": ctx.shard, "of": ctx.of, "quick": ctx.quick(), "first_bad": if i == usize::MAX { Value::Null } else { json!(labels[i]) }}});
+                report.violation(o, json!({"path": "gossip"}), case, d, 1 << 43);
+            }
+        }
+    }
+}
+
 fn run(ctx: &Ctx, report: &mut Report) {
     crate::util::silence_panics();
+    run_gossip_family(ctx, report);
     let lays = layouts(if ctx.quick() { 2 } else { 3 });
     report.fact("layouts", json!(lays.len()));
     let mut ordinal = 0u64;
@@ -658,6 +835,19 @@ fn run(ctx: &Ctx, report: &mut Report) {
 
 fn replay(case: &Value) -> anyhow::Result<(bool, String)> {
     set_clock(NOW);
+    if let Some(g) = case.get("gossip") {
+        let ctx = Ctx { tier: if g["quick"].as_bool().unwrap_or(true) { Tier::Quick } else { Tier::Thorough }, shard: g["shard"].as_u64().unwrap_or(0), of: g["of"].as_u64().unwrap_or(16), seed: 0 };
+        let share = gossip_share(&ctx);
+        let rt = super::live::runtime();
+        let bad = rt.block_on(gossip_cases(&share))?;
+        drop(rt);
+        let names: std::collections::BTreeSet<&str> = bad.iter().map(|(_, o, _)| *o).collect();
+        for (_, o, d) in &bad {
+            eprintln!("detail: {o}: {d}");
+        }
+        let out: String = names.iter().map(|o| format!("FAILED {o}\n")).collect();
+        return Ok((!bad.is_empty(), format!("hostile gossip neighbour, {} candidates\n{out}", share.len())));
+    }
     let bytes = hex::decode(case["bytes"].as_str().unwrap_or(""))?;
     let path = case["path"].as_str().unwrap_or("direct");
     let cand: SignedEntry = postcard::from_bytes(&bytes)?;
